@@ -264,9 +264,13 @@ func ruleDT17(c *Ctx) {
 		return out
 	}
 	n := 0
+	diag := c.diagnosticFns()
 	for _, g := range c.Fns {
 		if !c.InModule(g) || g.Blocks == nil || inUnit[g] || inUnit[Outermost(g)] {
 			continue
+		}
+		if diag[Outermost(g)] {
+			continue // a trace helper: what it reads reaches stderr only, not a view a reader relies on
 		}
 		// the change times this function reads
 		reads := map[string]ssa.Instruction{}
